@@ -508,7 +508,7 @@ theorem violates_iff (vs : List Rat) (ts : List (Option Rat)) :
     observation order), `γ = violators / n`, together they are all observations. -/
 theorem searchSplit_rule {π : Type} (pts : List π) (viol : List Bool) (dim : Nat)
     (dL dG : List π) (dγ : Rat) (hlen : pts.length = viol.length)
-    (hmore : dim < pts.length - countTrue viol) :
+    (hmore : dim < pts.length - countTrue viol) (hv : 0 < countTrue viol) :
     let s := searchSplit pts viol dim dL dG dγ
     s.forced = true ∧
     (∀ x, x ∈ s.lower ↔ ∃ i, ∃ (h₁ : i < pts.length) (h₂ : i < viol.length), pts[i] = x ∧ viol[i] = false) ∧
@@ -524,7 +524,7 @@ theorem searchSplit_rule {π : Type} (pts : List π) (viol : List Bool) (dim : N
                   gamma := (countTrue viol : Rat) / (viol.length : Rat), forced := true } := by
     show searchSplit pts viol dim dL dG dγ = _
     unfold searchSplit
-    rw [if_pos hcond]
+    rw [if_pos ⟨hcond, hv⟩]
   have h1 := selectRows_length_add pts viol hlen
   have h2 := selectRows_true_length pts viol hlen
   rw [hs]
@@ -537,45 +537,35 @@ theorem searchSplit_rule {π : Type} (pts : List π) (viol : List Bool) (dim : N
   · show (countTrue viol : Rat) / (viol.length : Rat) = _
     rw [hlen]
 
-/-- Otherwise (`satisfiers ≤ dim`) the sorting split and its `γ` are kept. -/
+/-- Otherwise (`satisfiers ≤ dim`, or no observation violates the thresholds) the sorting split and its
+    `γ` are kept. -/
 theorem searchSplit_keep {π : Type} (pts : List π) (viol : List Bool) (dim : Nat)
-    (dL dG : List π) (dγ : Rat) (hle : pts.length - countTrue viol ≤ dim) (hc : countTrue viol ≤ pts.length) :
+    (dL dG : List π) (dγ : Rat) (hle : pts.length - countTrue viol ≤ dim ∨ countTrue viol = 0)
+    (hc : countTrue viol ≤ pts.length) :
     searchSplit pts viol dim dL dG dγ = { lower := dL, greater := dG, gamma := dγ, forced := false } := by
   unfold searchSplit
   rw [if_neg (by omega)]
 
-/-- **searchSplit_gamma** — the forced `γ` lies in `[0, 1)`; it is in the estimator's legal range
-    `(0,1)` exactly when at least one observation violates the thresholds.  (With no violator the code
-    sets `γ = 0` and an empty greater set: outside the quantifier of C16, recorded by the harness.) -/
+/-- **searchSplit_gamma** — a forced `γ` always lies in the estimator's legal range `(0, 1)` and the
+    greater set is non-empty (the split is forced only when some observation violates the thresholds;
+    before the repair F13 a request without violators got `γ = 0` and an empty greater set). -/
 theorem searchSplit_gamma {π : Type} (pts : List π) (viol : List Bool) (dim : Nat)
     (dL dG : List π) (dγ : Rat) (hlen : pts.length = viol.length)
-    (hmore : dim < pts.length - countTrue viol) :
+    (hmore : dim < pts.length - countTrue viol) (hv : 0 < countTrue viol) :
     let s := searchSplit pts viol dim dL dG dγ
-    0 ≤ s.gamma ∧ s.gamma < 1 ∧ (0 < s.gamma ↔ 0 < countTrue viol) ∧ (0 < s.gamma ↔ s.greater ≠ []) := by
+    0 < s.gamma ∧ s.gamma < 1 ∧ s.greater ≠ [] := by
   intro s
-  obtain ⟨_, _, _, _, hg, _, _, hγ⟩ := searchSplit_rule pts viol dim dL dG dγ hlen hmore
+  obtain ⟨_, _, _, _, hg, _, _, hγ⟩ := searchSplit_rule pts viol dim dL dG dγ hlen hmore hv
   have hc := countTrue_le_length viol
   have hn : 0 < pts.length := by omega
   have hn' : (0 : Rat) < (pts.length : Rat) := by exact_mod_cast hn
   have hlt : countTrue viol < pts.length := by omega
   have hlt' : (countTrue viol : Rat) < (pts.length : Rat) := by exact_mod_cast hlt
-  have hpos : (0 < s.gamma ↔ 0 < countTrue viol) := by
-    rw [hγ]
-    constructor
-    · intro h
-      have : (0 : Rat) < (countTrue viol : Rat) := by
-        by_contra hc0
-        have : (countTrue viol : Rat) ≤ 0 := not_lt.mp hc0
-        have : (countTrue viol : Rat) / (pts.length : Rat) ≤ 0 := div_nonpos_of_nonpos_of_nonneg this hn'.le
-        linarith
-      exact_mod_cast this
-    · intro h
-      have : (0 : Rat) < (countTrue viol : Rat) := by exact_mod_cast h
-      positivity
-  refine ⟨?_, ?_, hpos, ?_⟩
+  have hvq : (0 : Rat) < (countTrue viol : Rat) := by exact_mod_cast hv
+  refine ⟨?_, ?_, ?_⟩
   · rw [hγ]; positivity
   · rw [hγ, div_lt_one hn']; exact hlt'
-  · rw [hpos, ← hg, List.length_pos_iff]
+  · rw [← List.length_pos_iff, hg]; exact hv
 
 example : (searchSplit [10, 11, 12, 13, 14] [true, false, false, true, false] 2 [] [] (1 / 5)).lower
     = [11, 12, 14] := by decide
